@@ -437,7 +437,8 @@ var symPool = []string{
 
 // dollarPool are $n-shaped and version-marker-shaped texts.
 var dollarPool = []string{"$0", "$1", "$5", "$9", "$10", "$99", "$99999999999", "$007", "$ion_1_0", "$ion_1_1", "$ion_2_0", "$ion_1_0_",
-	"$0x0B", "$0b1011", "$1_0", "$1e3", "$10a", "$0x", "$_1", "$$1", "$ion_1_10", "$ion_10_0", "$ion_12_34", "$ion_1_0x"}
+	"$0x0B", "$0b1011", "$1_0", "$1e3", "$10a", "$0x", "$_1", "$$1", "$ion_1_10", "$ion_10_0", "$ion_12_34", "$ion_1_0x",
+	"$+5", "$-1", "$+0", "$9223372036854775807", "$9223372036854775808", "$99999999999999999999"}
 
 // SymText draws symbol text (for symbol values, field names, annotations).
 func SymText(t *rapid.T, sz *Size) string {
